@@ -323,7 +323,7 @@ def rand_cond(rng, t, sub):
     return {'kind': 'kw', 'items': [[c, cc()] for c in sorted(cols)]}
 
 
-def c2s(ctx, ntables):
+def c2s(ctx, ntables, nsessions):
     obs = []
     for i in range(ntables):
         t, sub = rand_table(ctx.rng, 30)
@@ -338,22 +338,55 @@ def c2s(ctx, ntables):
                 excl = {'kind': 'none'}
             if not any(c in ('exc', 'find') for c in t['cols']):
                 obs.append(observe_one2(t, cond, excl, ctx.rng.choice(['', ''] + t['cols']), sp))
-    ctx.evals += len(obs)
+    # recorded random histories: one line per session, judged call by call against the ORIGINAL pool
+    for i in range(nsessions):
+        obs.append(run_session(*rand_session(ctx.rng)))
+    ctx.evals += sum(len(o['calls']) if o['op'] == 'session' else 1 for o in obs)
     bad = ctx.validate('Trace_Inc', obs)
     for i, clause in bad:
         o = obs[i - 1]
+        if o['op'] == 'session':
+            k, clause = clause.split(':')
+            e = o['calls'][int(k) - 1]
+            ctx.violation(clause, session_case(o, int(k)), {'observed': e['out'], 'pool_after': e['pool_after'], 'after': e['t_after']})
+            continue
         ctx.violation(clause, {k: o[k] for k in ('op', 't', 'cond', 'spelling', 'excl', 'find') if k in o} | ({'col': o['col']} if 'col' in o else {}),
                       {'observed': o['out'], 'after': o['after']})
     for o in obs:
-        if o['out'].get('kind') == 'table' and 0 < len(o['out']['rows']) < len(o['t']['rows']):
+        if o['op'] == 'session':
+            if any(len(e['call']['pos']) + (1 if e['call']['kw'] else 0) >= 2 for e in o['calls']):
+                ctx.note(('c2s-session', repr((o['t'], o['pool'], [e['call'] for e in o['calls']]))))
+        elif o['out'].get('kind') == 'table' and 0 < len(o['out']['rows']) < len(o['t']['rows']):
             ctx.note(('c2s', repr((o['t'], o['cond'], o['op']))))
-    ctx.sample({'c2s_observation': obs[len(obs) // 2]})
+    ctx.sample({'c2s_observation': obs[ntables * 2]})
+    ctx.sample({'c2s_session': obs[-1]})
+
+
+def sessions(ctx):
+    """histories that share the caller's objects (IncSession.tla / MC_IncSession.tla)"""
+    ctx.mc('MC_IncSession', 'MC_IncSession_quick.cfg' if ctx.quick else 'MC_IncSession_thorough.cfg')
+    # the model can express what it forbids: with `filters` BEING the caller's lone dict the pool does not survive inc(q1, q2)
+    ctx.mc('MC_IncSession', 'MC_IncSession_adopt.cfg', must_fail='PoolUntouched', coverage=False)
+    if ctx.quick:
+        snaps = ctx.generate('MC_IncSession', 'MC_IncSession_gen2.cfg')
+        one = [x for x in snaps if len(seq(x['hist'])) == 1]
+        two = [x for x in snaps if len(seq(x['hist'])) > 1]
+        s2c_sessions(ctx, one + ctx.rng.sample(two, min(len(two), 5000)), 'sess2')
+    else:
+        for cfg in ('MC_IncSession_gen2t.cfg', 'MC_IncSession_gen2f.cfg', 'MC_IncSession_gen3a.cfg'):
+            s2c_sessions(ctx, ctx.generate('MC_IncSession', cfg), cfg[13:-4])
+        s2c_sessions(ctx, ctx.generate('MC_IncSession', 'MC_IncSession_sim.cfg', simulate=300, depth=6, seed=ctx.seed + 1, workers=1), 'sim')
 
 
 def run(ctx):
     ctx.rule = ('S2C: every (table, condition) of the TLC-enumerated universe replayed through inc/exc/find_<c> in every '
-                'spelling; C2S: random tables (<= 30 rows, 2-4 columns) x random conditions validated by Trace_Inc. '
-                'Non-trivial = the condition selects some but not all rows; distinct by (table, condition, op).')
+                'spelling; every TLC-enumerated HISTORY of 2 calls (first call: any 0-2 (thorough 3) filters of a pool of 3 caller-owned '
+                'dicts / callables in every spelling - positional, ** keywords, exc= - second call: any 0-1 filter; thorough also '
+                'any x any and simulated histories of 5) on one real table with one set of filter objects, pool and table '
+                'snapshotted after every call; C2S: random tables (<= 30 rows, 2-4 columns) x random conditions, and random '
+                'recorded histories (2-6 calls, 2-5 pool objects), validated by Trace_Inc. '
+                'Non-trivial = the condition selects some but not all rows (distinct by table, condition, op); for histories: '
+                'some call hands over >= 2 filters (distinct by table, pool, calls).')
     ctx.mc('MC_Inc', 'MC_Inc_quick.cfg' if ctx.quick else 'MC_Inc_thorough.cfg')
     s2c(ctx, ctx.generate('MC_Inc', 'MC_Inc_gen1.cfg'))
     if not ctx.quick:
@@ -361,15 +394,24 @@ def run(ctx):
     else:
         cases = ctx.generate('MC_Inc', 'MC_Inc_gen2.cfg')
         s2c(ctx, ctx.rng.sample(cases, 6000))
-    c2s(ctx, 300 if ctx.quick else 5000)
+    sessions(ctx)
+    c2s(ctx, 300 if ctx.quick else 5000, 400 if ctx.quick else 6000)
     ctx.exhaustive = False
     ctx.assumptions += ['regular expressions are specified extensionally on the string universe StrU of spec/Table.tla; cells are drawn from it',
-                        'small-scope: MC/S2C tables have <= 2 rows over 6-10 values; C2S tables <= 30 rows']
+                        'small-scope: MC/S2C tables have <= 2 rows over 6-10 values; C2S tables <= 30 rows',
+                        'histories: tables are grids of 2-4 a-values x 2 b-values (every row tells two filters apart), pools are a menu of 5 (thorough 12) '
+                        'triples of filter objects; a column named by two filters of one call carries the same condition in both (SameColumnOnce), '
+                        'at most one callable per call (SingleCallable)',
+                        'named deviations for a callable AND column conditions in one call: ExcMixed (two readings of exc accepted), '
+                        'MixedEmptied (KeyError accepted when the callable alone accepts no row - reported as a defect of inc)']
 
 
 def replay(ctx, body):
     c = body['case']
-    o = observe_one2(c['t'], c['cond'], c['excl'], c['find'], c['spelling']) if c['op'] == 'one2' else observe(c['t'], c['cond'], c['op'], c['spelling'], c.get('col'))
+    if c['op'] == 'session':
+        o = run_session(c['t'], c['pool'], c['calls'])
+    else:
+        o = observe_one2(c['t'], c['cond'], c['excl'], c['find'], c['spelling']) if c['op'] == 'one2' else observe(c['t'], c['cond'], c['op'], c['spelling'], c.get('col'))
     bad = ctx.validate('Trace_Inc', [o])
-    print('replay:', 'REJECTED %s' % bad if bad else 'accepted', o['out'])
+    print('replay:', 'REJECTED %s' % bad if bad else 'accepted', o['calls'][-1]['out'] if c['op'] == 'session' else o['out'])
     return 1 if bad else 0
